@@ -1042,6 +1042,10 @@ func (r *JobRun) tickOp(op *Op, i int) *Violation {
 		if len(lastRun.singleReject) > 0 && lastErr == "" {
 			return viol("C17", "error-handling", "outcome-without-error", "cell %s: entities were rejected but the recorded outcome has no error: %v", cell, res)
 		}
+		if len(lastRun.singleReject) > 0 && !strings.Contains(lastErr, "scripted sink rejects") {
+			// "carries the error": the error the sink gave for a rejected entity, not only a note that the run stopped
+			return viol("C17", "error-handling", "outcome-without-the-sink-error", "cell %s: the sink rejected %v with \"scripted sink rejects ...\"; the recorded outcome says %q", cell, shortAll(lastRun.singleReject), lastErr)
+		}
 		if len(first.singleReject) == 0 && len(st.runs) == 1 && lastErr != "" {
 			return viol("C17", "error-handling", "outcome-error-without-rejection", "cell %s: nothing was rejected for good but the outcome says %q", cell, lastErr)
 		}
